@@ -325,6 +325,13 @@ func (authmatrixComp) exec1(op string) (string, string, string, bool) {
 	if !ok {
 		return "bad-op", "", "bad-op", false
 	}
+	return c05RunCell(cell, op, nil, false)
+}
+
+// c05RunCell runs one cell end to end; `tweak` (may be nil) adjusts the two real configurations after the cell's
+// options have been applied (c05_cafault.go: options taken from FILES that are in a faulty state); `mustSecure` =
+// the client tolerates no session that is not TLS (Upstreams.MustSecure)
+func c05RunCell(cell c05Cell, op string, tweak func(srv *cert.ServerConfig, cli *cert.ClientConfig), mustSecure bool) (string, string, string, bool) {
 	p := getC05PKI()
 	sink := getC05Sink()
 	before := atomic.LoadInt64(&sink.bytes)
@@ -338,6 +345,9 @@ func (authmatrixComp) exec1(op string) (string, string, string, bool) {
 		cleaf := p.clientLeaf(cell.ccert)
 		cliCfg.Certificate = cleaf.certPEM
 		cliCfg.PrivateKey = cleaf.keyPEM
+	}
+	if tweak != nil {
+		tweak(&srvCfg, cliCfg)
 	}
 	sinkURL, _ := url.Parse("tcp://" + sink.ln.Addr().String())
 	echo := &server.NetworkChannel{}
@@ -447,7 +457,7 @@ func (authmatrixComp) exec1(op string) (string, string, string, bool) {
 	}
 	defer shutdown()
 
-	list := &upstream.Upstreams{Data: []upstream.Upstream{ups}}
+	list := &upstream.Upstreams{Data: []upstream.Upstream{ups}, MustSecure: mustSecure}
 	type res struct {
 		ok  bool
 		why string
